@@ -809,6 +809,7 @@ package xmpp
 //@   requires r != nil && r.IQResultRoutes != nil && lockFree(r)
 //@   emit Registered(r, id)
 //@   ensures [C07.register]         ch != nil && fresh(ch) && chancap(ch) >= 1 && setsOne(r, id) && last(MapSet_IQResultRoutes, 2).result == ch && fresh(last(MapSet_IQResultRoutes, 2))
+//@   ensures [C07.register.ctx]     last(MapSet_IQResultRoutes, 2).context == ctx
 //@   ensures [C07.register.only]    count(MapDel_IQResultRoutes) == old(count(MapDel_IQResultRoutes)) && count(ChanSend) == old(count(ChanSend)) && count(Close) == old(count(Close))
 //@   ensures [C07.register.lock]    lockFree(r)
 //@   ensures [C07.register.cleanup] count(Spawn_NewIQResultRoute$1) == old(count(Spawn_NewIQResultRoute$1)) + 1
@@ -856,6 +857,7 @@ package xmpp
 //@   ensures [C07.sendiq.failed]  err != nil ==> ch == nil && count(MapSet_IQResultRoutes) - old(count(MapSet_IQResultRoutes)) <= 1
 //@   ensures [C07.sendiq.lock]    lockFree(c.router)
 //@   at call Send assert [C07.sendiq.order] setsOne(c.router, iq.Id) && count(MapDel_IQResultRoutes) == old(count(MapDel_IQResultRoutes))
+//@   at call NewIQResultRoute assert [C07.sendiq.ctx] $ctx == ctx && $id == iq.Id && $r == c.router
 //@   at call cancelIQResultRoute assert [C07.sendiq.cancel] $id == iq.Id && $result == last(MapSet_IQResultRoutes, 2).result
 //@   assigns c.Session.SMState.UnAckQueue.Uslice, locked(addr(c.router.IQResultRouteLock)), rlocked(addr(c.router.IQResultRouteLock))
 //@   elems c.Session.SMState.UnAckQueue.Uslice, c.router.IQResultRoutes
@@ -869,6 +871,7 @@ package xmpp
 //@   ensures [C07.comp.sendiq.failed]  err != nil ==> ch == nil && count(MapSet_IQResultRoutes) - old(count(MapSet_IQResultRoutes)) <= 1
 //@   ensures [C07.comp.sendiq.lock]    lockFree(c.router)
 //@   at call Send assert [C07.comp.sendiq.order] setsOne(c.router, iq.Id) && count(MapDel_IQResultRoutes) == old(count(MapDel_IQResultRoutes))
+//@   at call NewIQResultRoute assert [C07.comp.sendiq.ctx] $ctx == ctx && $id == iq.Id && $r == c.router
 //@   at call cancelIQResultRoute assert [C07.comp.sendiq.cancel] $id == iq.Id && $result == last(MapSet_IQResultRoutes, 2).result
 //@   assigns locked(addr(c.router.IQResultRouteLock)), rlocked(addr(c.router.IQResultRouteLock))
 //@   elems c.router.IQResultRoutes
